@@ -10,11 +10,6 @@ Open Scope Z_scope.
 Definition comet_rel (s : staking) (vs : gmap Z Z) : Prop :=
   forall k p, vs !! k = Some p <-> exists id v, vals s !! id = Some v /\ v_cons v = k /\ last_pow s !! id = Some p.
 
-(* one update applied to a validator set *)
-Definition apply_update (m : gmap Z Z) (u : Z * Z) : gmap Z Z :=
-  if snd u =? 0 then delete (fst u) m else <[fst u := snd u]> m.
-Definition apply_updates (m : gmap Z Z) (upd : list (Z * Z)) : gmap Z Z := fold_left apply_update upd m.
-
 Lemma apply_updates_snoc m upd u : apply_updates m (upd ++ [u]) = apply_update (apply_updates m upd) u.
 Proof. unfold apply_updates. rewrite fold_left_app. reflexivity. Qed.
 
@@ -498,4 +493,167 @@ Proof.
   destruct (mature_ids ids c) as [c1|] eqn:E; [|discriminate]. intros H.
   pose proof (mature_ids_off _ _ _ HCI E) as [Hl1 Hv1]. pose proof (mature_ids_CI _ _ _ HCI E) as H1.
   destruct (IH c1 H1 H) as [Hl2 Hv2]. split; [congruence|]. intros i Hi. rewrite Hv2 by (rewrite Hl1; exact Hi). apply Hv1; exact Hi.
+Qed.
+
+(* ---- the world invariant: chain invariant + CometBFT's next set = last validator powers by consensus key ---- *)
+Definition WI (w : world) : Prop :=
+  CI (w_chain w) /\ (w_halted w = None -> comet_rel (stk (w_chain w)) (c_next (w_comet w))).
+
+Lemma comet_rel_clock c h t vs : comet_rel (stk c) vs -> comet_rel (stk (with_clock c h t)) vs.
+Proof. auto. Qed.
+
+Lemma init_world_WI g : wf_genesis g -> WI (init_world g).
+Proof.
+  intros Hwf. split; [apply init_world_CI; exact Hwf|].
+  pose proof (genesis_chain_CI g Hwf) as H0. unfold init_world. fold (genesis_chain g).
+  change (match apply_valset_updates (genesis_chain g) with
+          | EBOk c1 upd => _ | EBHalt e => _ end) with
+    (match apply_valset_updates (genesis_chain g) with
+     | EBHalt e => {| w_chain := genesis_chain g; w_comet := {| c_prev := None; c_cur := ∅; c_next := ∅ |}; w_halted := Some (HEndBlock e) |}
+     | EBOk c1 upd =>
+       {| w_chain := with_poa c1 {| pending := []; cached_power := last_total (stk c1); abs_changed := 0 |};
+          w_comet := {| c_prev := None; c_cur := apply_updates ∅ upd; c_next := apply_updates ∅ upd |}; w_halted := None |}
+     end).
+  destruct (apply_valset_updates (genesis_chain g)) as [c1 upd|e] eqn:E; cbn; [|discriminate]. intros _.
+  eapply (apply_valset_updates_comet (genesis_chain g) c1 upd ∅ H0); [|exact E].
+  intros k p. rewrite lookup_empty. split; [discriminate|]. intros (id & v & _ & _ & Hl). cbn in Hl. rewrite lookup_empty in Hl. discriminate.
+Qed.
+
+Lemma run_block_WI w b : WI w -> WI (fst (run_block w b)).
+Proof.
+  intros [HCI Hrel]. unfold run_block. destruct (w_halted w) eqn:Hh; [split; [exact HCI|cbn; intros Hc; congruence]|].
+  specialize (Hrel eq_refl).
+  set (c0 := with_clock (w_chain w) (height (w_chain w) + 1) (now (w_chain w) + b_dt b)).
+  assert (H0 : CI c0) by (apply CI_clock; exact HCI).
+  destruct (begin_block c0 _ (b_absent b)) as [c1|e] eqn:Eb; [|split; [exact H0|discriminate]].
+  pose proof (begin_block_CI _ _ _ _ H0 Eb) as H1. pose proof (begin_block_MS _ _ _ _ Eb) as M1.
+  pose proof (deliver_txs_CI (b_txs b) c1 H1) as H2. pose proof (deliver_txs_MS (b_txs b) c1 H1) as M2.
+  destruct (deliver_txs c1 (b_txs b)) as [c2 outs]. cbn in H2, M2.
+  assert (Hrel2 : comet_rel (stk c2) (c_next (w_comet w))).
+  { eapply comet_rel_stable; [exact M2|]. eapply comet_rel_stable; [exact M1|]. exact Hrel. }
+  unfold staking_end_block. destruct (apply_valset_updates c2) as [c3 upd|e] eqn:Ea; [|split; [exact H2|discriminate]].
+  pose proof (apply_valset_updates_CI _ _ _ H2 Ea) as H3.
+  pose proof (apply_valset_updates_comet _ _ _ _ H2 Hrel2 Ea) as Hrel3.
+  destruct (unbond_all_mature c3) as [c4|] eqn:Em; [|split; [exact H2|discriminate]].
+  unfold unbond_all_mature in Em.
+  pose proof (mature_slots_CI _ _ _ H3 Em) as H4. pose proof (off_members_MS _ _ (mature_slots_off _ _ _ H3 Em)) as M4.
+  destruct H2 as [HS2 HP2].
+  pose proof (apply_valset_updates_safe c2 (si_sound _ HS2) (si_unique _ HS2) (si_cons _ HS2) (si_last _ HS2) (si_tok _ HS2)) as Hsafe. rewrite Ea in Hsafe.
+  destruct Hsafe as [Hnd _].
+  destruct (comet_apply (c_next (w_comet w)) upd) as [nn|e] eqn:Ec; cbn; (split; [exact H4|]); [|discriminate].
+  intros _. rewrite (comet_apply_is_apply_updates _ _ _ Hnd Ec). eapply comet_rel_stable; [exact M4|exact Hrel3].
+Qed.
+
+Theorem run_world_WI bs w : WI w -> WI (run_world w bs).
+Proof. revert w. induction bs as [|b bs IH]; cbn; intros w H; [exact H|]. apply IH. apply run_block_WI. exact H. Qed.
+
+(* C02 / C18: after every block of every history that has not halted, the set CometBFT will use is exactly the
+   chain's last validator powers keyed by the validators' consensus keys *)
+Theorem reachable_comet_rel g bs :
+  wf_genesis g ->
+  let w := run_world (init_world g) bs in
+  w_halted w = None ->
+  forall k p, c_next (w_comet w) !! k = Some p <->
+              exists id v, vals (stk (w_chain w)) !! id = Some v /\ v_cons v = k /\ last_pow (stk (w_chain w)) !! id = Some p.
+Proof. intros Hg w Hh. destruct (run_world_WI bs (init_world g) (init_world_WI g Hg)) as [_ Hrel]. exact (Hrel Hh). Qed.
+
+(* and CometBFT never refuses a block's updates for removing a key it does not have *)
+Lemma unbond_loop_zero_members ids a a' :
+  unbond_loop ids a = LDone a' ->
+  forall k, In (k, 0) (la_upd a') -> In (k, 0) (la_upd a) \/
+            exists id v, In id ids /\ vals (stk (la_chain a)) !! id = Some v /\ v_cons v = k.
+Proof.
+  revert a. induction ids as [|id rest IH]; intros a; cbn [unbond_loop]; [intros [= <-] k H; left; exact H|].
+  destruct (vals (stk (la_chain a)) !! id) as [v|] eqn:Hv; [|discriminate]. destruct (negb _); [discriminate|].
+  destruct (begin_unbonding (la_chain a) id v) as [c1 v1] eqn:Eb.
+  pose proof (begin_unbonding_vals (la_chain a) id v) as (v' & Hsnd & Hc' & _ & Hvals' & _). rewrite Eb in Hsnd, Hvals'. cbn in Hsnd, Hvals'. subst v'.
+  intros H k Hin. destruct (IH _ H k Hin) as [Hold|(i & vi & Hi & Hvi & Hci)].
+  - cbn in Hold. apply in_app_or in Hold as [Hold|[Heq|[]]]; [left; exact Hold|]. inversion Heq; subst. right. exists id, v. repeat split; auto. left; reflexivity.
+  - cbn in Hvi. rewrite Hvals' in Hvi. destruct (decide (i = id)) as [->|Hne].
+    + rewrite lookup_insert in Hvi. inversion Hvi; subst. right. exists id, v. repeat split; auto. left; reflexivity.
+    + rewrite lookup_insert_ne in Hvi by auto. right. exists i, vi. repeat split; auto. right; exact Hi.
+Qed.
+
+(* ---- three small facts about the main loop ---- *)
+Lemma apply_loop_facts keys maxv : forall a a',
+  apply_loop keys maxv a = LDone a' ->
+  (forall k p, In (k, p) (la_upd a') -> In (k, p) (la_upd a) \/ p <> 0) /\
+  (forall id q, la_last a' !! id = Some q -> la_last a !! id = Some q) /\
+  same_ids_cons (stk (la_chain a)) (stk (la_chain a')).
+Proof.
+  induction keys as [|[p id] ks IH]; intros a a'; cbn [apply_loop].
+  - intros [= <-]. repeat split; auto. apply same_ids_cons_refl.
+  - destruct (maxv <=? la_count a); [intros [= <-]; repeat split; auto; apply same_ids_cons_refl|].
+    destruct (vals (stk (la_chain a)) !! id) as [v|] eqn:Hv; [|discriminate].
+    destruct (v_jailed v); [apply IH|].
+    destruct (Z.eqb_spec (v_power v) 0) as [Hz|Hnz]; [intros [= <-]; repeat split; auto; apply same_ids_cons_refl|].
+    set (r := match v_status v with Bonded => (la_chain a, v, 0) | _ => let '(c', v') := bond_validator (la_chain a) id v in (c', v', v_tokens v') end).
+    assert (Hr : exists c1 v1 moved, r = (c1, v1, moved) /\ v_cons v1 = v_cons v /\ v_tokens v1 = v_tokens v /\
+                 vals (stk c1) = <[id := v1]> (vals (stk (la_chain a)))).
+    { subst r. destruct (v_status v) eqn:Es.
+      - destruct (bond_validator (la_chain a) id v) as [c' v'] eqn:Eb.
+        pose proof (bond_validator_vals (la_chain a) id v) as (H1 & H2 & H3). rewrite Eb in H1, H2, H3. cbn in *. subst v'. do 3 eexists. repeat split; eauto.
+      - destruct (bond_validator (la_chain a) id v) as [c' v'] eqn:Eb.
+        pose proof (bond_validator_vals (la_chain a) id v) as (H1 & H2 & H3). rewrite Eb in H1, H2, H3. cbn in *. subst v'. do 3 eexists. repeat split; eauto.
+      - exists (la_chain a), v, 0. repeat split; auto. rewrite insert_id; auto. }
+    destruct Hr as (c1 & v1 & moved & -> & Hc1 & Ht1 & Hvals1). cbn zeta. intros Hrun.
+    destruct (IH _ _ Hrun) as (A & B & C). cbn [la_upd la_last la_chain] in A, B, C.
+    assert (Hpw : v_power v1 <> 0) by (unfold v_power; rewrite Ht1; exact Hnz).
+    split; [|split].
+    + intros k q Hin. destruct (A k q Hin) as [Hold|Hnz']; [|right; exact Hnz'].
+      destruct (match la_last a !! id with Some old => negb (old =? v_power v1) | None => true end); [|left; exact Hold].
+      apply in_app_or in Hold as [Hold|[Heq|[]]]; [left; exact Hold|]. inversion Heq; subst. right; exact Hpw.
+    + intros i q Hl. apply B in Hl. apply lookup_delete_Some in Hl as [_ Hl]. exact Hl.
+    + eapply same_ids_cons_trans; [|exact C].
+      eapply same_ids_cons_insert; [exact Hv|exact Hc1|]. destruct (match la_last a !! id with Some old => negb (old =? v_power v1) | None => true end); cbn; exact Hvals1.
+Qed.
+
+(* a zero-power update always concerns a key CometBFT has *)
+Theorem apply_valset_updates_zero_members c c' upd vs :
+  CI c -> comet_rel (stk c) vs -> apply_valset_updates c = EBOk c' upd ->
+  forall k, In (k, 0) upd -> is_Some (vs !! k).
+Proof.
+  intros [HS HP] Hrel. unfold apply_valset_updates.
+  set (keys := sort_by pidx_le (pidx (stk c))).
+  set (a0 := {| la_chain := c; la_last := last_pow (stk c); la_upd := []; la_count := 0; la_total := 0; la_to_bonded := 0 |}).
+  destruct (apply_loop keys (sp_max_validators (params (stk c))) a0) as [a1|] eqn:E1; [|discriminate].
+  destruct (apply_loop_facts _ _ _ _ E1) as (A & B & C). cbn in A, B, C.
+  destruct (sorted_keys_spec (la_last a1)) as [Hnd Hmem].
+  destruct (unbond_loop (sorted_keys (la_last a1)) a1) as [a2|] eqn:E2; [|discriminate].
+  destruct (if la_to_bonded a2 =? 0 then _ else _) as [b|]; [|discriminate]. intros [= _ <-] k Hin.
+  destruct (unbond_loop_zero_members _ _ _ E2 k Hin) as [Hold|(id & v1 & Hid & Hv1 & Hc1)].
+  - destruct (A k 0 Hold) as [[]|Hnz]; congruence.
+  - apply Hmem in Hid as [q Hq]. apply B in Hq.
+    destruct (proj2 C id v1 Hv1) as (v & Hv & Hcv).
+    assert (Hvs : vs !! k = Some q) by (apply (Hrel k q); exists id, v; repeat split; auto; congruence). eauto.
+Qed.
+
+Lemma comet_apply_not_remove_nonmember vs upd :
+  (forall k, In (k, 0) upd -> is_Some (vs !! k)) -> comet_apply vs upd <> inr 3.
+Proof.
+  intros Hz. unfold comet_apply. destruct upd as [|u0 upd0] eqn:Eu; [discriminate|]. rewrite <- Eu in *. clear Eu u0 upd0. cbn zeta.
+  repeat match goal with |- context [if ?b then inr ?e else _] => lazymatch e with 3 => fail | _ => destruct b; [discriminate|] end end.
+  set (deletes := filter (fun u : Z * Z => snd u =? 0) upd).
+  assert (Hex : existsb (fun u : Z * Z => negb (bool_decide (is_Some (vs !! fst u)))) deletes = false).
+  { apply not_true_is_false. intros He. apply existsb_exists in He as ([k p] & Hin & Hn). apply filter_In in Hin as [Hin Hp]. cbn in Hp, Hn.
+    apply Z.eqb_eq in Hp. subst p. apply negb_true_iff in Hn. apply bool_decide_eq_false in Hn. apply Hn. apply Hz. exact Hin. }
+  rewrite Hex. destruct (_ <? _); discriminate.
+Qed.
+
+Theorem block_safe_members w b :
+  WI w -> w_halted w = None -> w_halted (fst (run_block w b)) <> Some (HComet 3).
+Proof.
+  intros [HCI Hrel] Hh. specialize (Hrel Hh). unfold run_block. rewrite Hh.
+  set (c0 := with_clock (w_chain w) (height (w_chain w) + 1) (now (w_chain w) + b_dt b)).
+  assert (H0 : CI c0) by (apply CI_clock; exact HCI).
+  destruct (begin_block c0 _ (b_absent b)) as [c1|e] eqn:Eb; [|discriminate].
+  pose proof (begin_block_CI _ _ _ _ H0 Eb) as H1. pose proof (begin_block_MS _ _ _ _ Eb) as M1.
+  pose proof (deliver_txs_CI (b_txs b) c1 H1) as H2. pose proof (deliver_txs_MS (b_txs b) c1 H1) as M2.
+  destruct (deliver_txs c1 (b_txs b)) as [c2 outs]. cbn in H2, M2.
+  assert (Hrel2 : comet_rel (stk c2) (c_next (w_comet w))).
+  { eapply comet_rel_stable; [exact M2|]. eapply comet_rel_stable; [exact M1|]. exact Hrel. }
+  unfold staking_end_block. destruct (apply_valset_updates c2) as [c3 upd|e] eqn:Ea; [|discriminate].
+  destruct (unbond_all_mature c3); [|discriminate].
+  pose proof (comet_apply_not_remove_nonmember (c_next (w_comet w)) upd (apply_valset_updates_zero_members _ _ _ _ H2 Hrel2 Ea)) as Hn3.
+  destruct (comet_apply (c_next (w_comet w)) upd) as [nn|e]; cbn; [discriminate|]. intros [= ->]. congruence.
 Qed.
